@@ -34,6 +34,9 @@ def run(tier):
                 "trace mode (drivers, refiners: identical tapes must give identical abstract-call traces and results).",
                 trusted_base=["python ast", "hv.kpe", "hv.drivers harness", "numba 0.61: closure variables are frozen as constants; typed List/Dict, "
                               "reflected lists and arbitrary objects cannot be frozen"])
+    from .. import memo
+    memo.check_modules(chk, "C17.a-memo", ["hiten.algorithms.dynamics.base", "hiten.algorithms.dynamics.hamiltonian"], floor=2,
+                       what="hand-rolled caches of compiled right-hand sides")
     _a_closures(chk)
     _b_hamilton(chk)
     _c_step_kernels(chk)
@@ -41,9 +44,6 @@ def run(tier):
     _c_drivers(chk, tier)
     _c_refiner(chk)
     _d_dispatch(chk)
-    from .. import memo
-    memo.check_modules(chk, "C17.a-memo", ["hiten.algorithms.dynamics.base", "hiten.algorithms.dynamics.hamiltonian"], floor=2,
-                       what="hand-rolled caches of compiled right-hand sides")
     return chk
 
 
@@ -214,12 +214,27 @@ def _poly_eval(ip, args, kwargs):
 
 def _b_hamilton(chk):
     y = to_obj_array([sp.Symbol(f"s{i}", real=True) for i in range(6)])
-    ip = Interp(overrides={"_polynomial_evaluate": _poly_eval})
-    rhs = to_obj_array(ip.call_function(DH, "_hamiltonian_rhs", [y.copy(), JAC, sp.Symbol("clmo"), 3]))
+    # generic point: an equality test between a state symbol and a constant is false there; the special states below
+    # (one canonical pair exactly at the origin, a whole half of the state zero) decide such tests statically the other way
+    generic = lambda c: (False if isinstance(c, sp.Eq) else True if isinstance(c, sp.Ne) else None)  # noqa: E731
+    ip = Interp(overrides={"_polynomial_evaluate": _poly_eval}, decide=generic)
+    states = [("generic", y.copy())]
+    for i in range(3):
+        z = y.copy()
+        z[i] = sp.Integer(0)
+        z[3 + i] = sp.Integer(0)
+        states.append((f"pair {i} at the origin", z))
+    zq = y.copy()
+    zq[:3] = sp.Integer(0)
+    states.append(("Q = 0", zq))
+    states.append(("origin", to_obj_array([sp.Integer(0)] * 6)))
+    for label, st in states:
+        rhs = to_obj_array(ip.call_function(DH, "_hamiltonian_rhs", [st.copy(), JAC, sp.Symbol("clmo"), 3]))
+        E = lambda j: sp.Function(f"E{j}", real=True)(*list(st))  # noqa: E731
+        ok = rhs.shape == (6,) and all(rhs[i] == E(3 + i) for i in range(3)) and all(sp.expand(rhs[3 + i] + E(i)) == 0 for i in range(3))
+        chk.check(ok, "C17.b", f"{DH}::_hamiltonian_rhs[{label}]", f"right-hand side at a {label} state is not (dH/dP, -dH/dQ) with dH/dx_j = eval(jac_H[j]) there: {list(rhs)}",
+                  sample=f"{label}: rhs[i] = eval(jac_H[3+i]); rhs[3+i] = -eval(jac_H[i])")
     E = lambda j: sp.Function(f"E{j}", real=True)(*list(y))  # noqa: E731
-    ok = rhs.shape == (6,) and all(rhs[i] == E(3 + i) for i in range(3)) and all(sp.expand(rhs[3 + i] + E(i)) == 0 for i in range(3))
-    chk.check(ok, "C17.b", f"{DH}::_hamiltonian_rhs", f"right-hand side is not (dH/dP, -dH/dQ) with dH/dx_j = eval(jac_H[j]): {list(rhs)}",
-              sample="rhs[i] = eval(jac_H[3+i]); rhs[3+i] = -eval(jac_H[i])")
     # evaluators of the system object
     mod, cls = ri.find_def(DH, "_HamiltonianSystem")
     sysobj = SymObj(ClassRef(mod, cls), {"jac_H": JAC, "clmo_H": sp.Symbol("clmo"), "_n_dof": 3, "_validate_coordinates": lambda a, b: None}, "hamsys")
